@@ -272,8 +272,9 @@ _ATTACK_SYNC_UNITS = [
 
 PROPS["C02"] = {
     "title": "Every started hit yields exactly one result and the attack ends cleanly",
-    "units": [{"name": "bubble", "pkg": "libsync", "go": "go1.26.8", "run": "^TestC02(Random|Exhaustive)", "scale_thorough": 6},
+    "units": [{"name": "bubble", "pkg": "libsync", "go": "go1.26.8", "run": "^TestC02(Random|Exhaustive|TwoAttacks)", "scale_thorough": 6},
               {"name": "stoprace", "pkg": "lib", "run": "^TestC02StopRace", "shards_quick": 2, "shards_thorough": 8},
+              {"name": "dialpath", "pkg": "lib", "run": "^TestC02DialPath", "shards_quick": 2, "shards_thorough": 8},
               {"name": "pump", "pkg": "main", "run": "^TestC02", "shards_quick": 1, "shards_thorough": 4}],
     "rule": "Histories over the alphabet {tick, pacer-stop, complete(oldest/newest/any), consume, Stop by 1..8 callers, "
             "fail-next-target} are executed against the real Attacker inside a testing/synctest bubble with a gated "
@@ -322,6 +323,7 @@ PROPS["C03"] = {
 PROPS["C04"] = {
     "title": "The attack loop obeys its pacer and its duration",
     "units": [{"name": "virtual", "pkg": "libsync", "go": "go1.26.8", "run": "^TestC04", "scale_thorough": 12},
+              {"name": "realclock", "pkg": "lib", "run": "^TestC04(Forever|TinyDuration)", "shards_quick": 2, "shards_thorough": 8},
               {"name": "cli", "pkg": "main", "run": "^TestC04", "shards_quick": 2, "shards_thorough": 8}],
     "rule": "rapid draws adversarial scripted pacers (1..120 answers: negative, zero, ns, ms, seconds..minutes, around and "
             "beyond the duration; then stop), durations (none or 1 ns..10 min), (workers, max-workers) in 0..8 x 1..8, "
